@@ -182,8 +182,10 @@ def run(ctx):
                 ctx.undecided("C17.R5", W + ":ElfWriter.write_rela_table", "r_info assignment not under a bits test")
                 continue
             want = "(r_sym << 32) + r_type" if is64 else "(r_sym << 8) + r_type"
-            alt = want.replace(" + ", " | ")
-            ctx.ob("C17.R5", W + ":ElfWriter.write_rela_table", "r_info = %s for ELF%d" % (want, 64 if is64 else 32), norm(n.value) in (want, alt), construct="r_info:%d" % (64 if is64 else 32), node=n, detail=norm(n.value))
+            v = n.value
+            okv = isinstance(v, ast.BinOp) and isinstance(v.op, (ast.Add, ast.BitOr)) and norm(v.right) == "r_type" and isinstance(v.left, ast.BinOp) and isinstance(v.left.op, ast.LShift) \
+                and norm(v.left.left) == "r_sym" and try_const(v.left.right) == (32 if is64 else 8)
+            ctx.ob("C17.R5", W + ":ElfWriter.write_rela_table", "r_info = %s for ELF%d" % (want, 64 if is64 else 32), okv, construct="r_info:%d" % (64 if is64 else 32), node=n, detail=norm(n.value))
     ent = {norm(n.targets[0]): norm(n.value) for n in walk_no_nested(rl) if isinstance(n, ast.Assign) and norm(n.targets[0]).startswith("rela_entry.")}
     ctx.ob("C17.R5", W + ":ElfWriter.write_rela_table", "rela entry = (rel.offset, r_info, rel.addend)", ent == {"rela_entry.r_offset": "rel.offset", "rela_entry.r_info": "r_info", "rela_entry.r_addend": "rel.addend"}, construct="rela-entry", detail=str(ent))
     idf = ctx.fn(W, "ElfWriter.write_identification")
